@@ -122,7 +122,7 @@ Definition run_action (a : action) (w : world) : world :=
   match a with
   | AConnect chunks =>
       (* the previous handle (if any) is dropped; a new transport is supplied *)
-      let w0 := upd_txbuf (upd_inq (upd_live w false false 0) [] (w_now w)) [] in
+      let w0 := upd_poison (upd_wire (upd_txbuf (upd_inq (upd_live w false false 0) [] (w_now w)) []) []) false in
       let w1 := fold_left (fun w c => feed w (fst c) (snd c)) chunks w0 in
       let '(w2, r) := op_connect FUEL w1 in
       let w3 := match r with
@@ -195,7 +195,7 @@ Definition step_action (w : world) (a : action) : world :=
 
 Definition init_world (c : case) : world :=
   {| w_sess := session_new (c_cfg c); w_conn := false; w_live := false; w_event := 0; w_now := 0; w_inq := [];
-     w_last_arrival := 0; w_txbuf := []; w_script := c_script c; w_broker := 0; w_log := []; w_handles := []; w_waits := 0; w_envok := true |}.
+     w_last_arrival := 0; w_txbuf := []; w_script := c_script c; w_broker := 0; w_log := []; w_handles := []; w_waits := 0; w_envok := true; w_wire := []; w_poison := false |}.
 
 Definition run_case (c : case) : world := fold_left step_action (c_prog c) (init_world c).
 
